@@ -308,8 +308,8 @@ pub(super) fn load_styles<R: Read + std::io::Seek>(
     let mut style_names = HashMap::new();
     let cell_style_nodes = style_sheet
         .children()
-        .filter(|n| n.has_tag_name("cellStyles"))
-        .collect::<Vec<Node>>()[0];
+        .find(|n| n.has_tag_name("cellStyles"))
+        .ok_or_else(|| XlsxError::Xml("Missing cellStyles in xl/styles.xml".to_string()))?;
     for cell_style in cell_style_nodes.children() {
         let name = get_attribute(&cell_style, "name")?.to_string();
         let xf_id = get_number(cell_style, "xfId");
